@@ -245,8 +245,9 @@ def case_of_replay(obj):
 def replay(ctx, obj):
     if obj.get("kind") == "units":
         data = {k: [float(x) for x in v] for k, v in obj["data"].items()}
-        kw = dict(unit=obj["unit"], sampling=(1, obj["unit"], 0.1), limit=8.0, timeout_is_outcome=True)
-        on = impl.run_online_discrete(obj["spec"], sorted(data), data, obj["n"], **kw)
+        per = obj.get("period") or [1, obj["unit"]]
+        kw = dict(unit=obj["unit"], sampling=(per[0], per[1], 0.1), limit=8.0, timeout_is_outcome=True)
+        on = impl.run_online_discrete(obj["spec"], sorted(data), data, obj["n"], pastify=bool(obj.get("pastify")), **kw)
         off = impl.eval_offline_discrete(obj["spec"], sorted(data), data, obj["n"], **kw)
         ok = on[0] == "ok" and off[0] == "ok" and common.same_nums(on[1], [p_[1] for p_ in off[1]])
         return ok, ("online agrees with offline" if ok else "online %r differs from offline %r" % (on[:2], off[:2]))
@@ -316,11 +317,26 @@ def units_stream(ctx, rng, count):
                                            "per name)" % (t2, col[1][0]), {"kind": "units", "spec": t2, "unit": fine, "data": data, "n": n},
                                            failing_input=False, stream="units/names"))
                 break
-        on = impl.run_online_discrete(text, ["a"], data, n, **kw)
+        past = False
+        if rng.random() < 0.3:
+            # a lower bound without unit takes the unit of the upper bound (not the default unit); the sampling period is one
+            # coarse unit, and the monitor is pastified first (the identity on a specification without future operators)
+            lo = rng.randint(1, 2)
+            hi = lo + rng.randint(0, 2)
+            o_ = rng.choice(["once", "historically", "since"])
+            iv = "[%d,%d%s]" % (lo, hi, coarse)
+            text = "out = ((a <= 3.0) since%s %s)" % (iv, p) if o_ == "since" else "out = (%s%s %s)" % (o_, iv, p)
+            n = rng.randint(4, 9)
+            data = {"a": [rng.choice([-1.0, 0.0, 1.0, 2.0, 3.0, 5.0]) for _ in range(n)]}
+            kw = dict(unit=fine, sampling=(1, coarse, 0.1), limit=20.0)
+            past = rng.random() < 0.7
+            ctx.count("stream:units/unitless-lower-bound" + ("/pastified" if past else ""))
+        on = impl.run_online_discrete(text, ["a"], data, n, pastify=past, **kw)
         off = impl.eval_offline_discrete(text, ["a"], data, n, **kw)
         ctx.evaluations += 1
         ctx.count("stream:units")
-        rep = {"kind": "units", "spec": text, "unit": fine, "data": data, "n": n, "impl_online": on, "impl_offline": off}
+        rep = {"kind": "units", "spec": text, "unit": fine, "period": list(kw["sampling"][:2]), "pastify": past, "data": data, "n": n,
+               "impl_online": on, "impl_offline": off}
         if on[0] != "ok" or off[0] != "ok":
             ctx.violations.append(Violation("online / offline raised %r / %r: %s (unit %s, period 1 %s)" % (on[:2], off[:2], text, fine, fine),
                                             rep, stream="units"))
